@@ -30,7 +30,7 @@ for f in files:
             if info is None:
                 info = loops_of(cur) or {}
             n = int(m.group(2)); nm = info.get(n, '')
-            if nm and list(info.values()).count(nm) == 1:
+            if nm:
                 lines[i] = m.group(1) + 'over ' + nm + m.group(3)
                 changed += 1
             else:
